@@ -10,7 +10,6 @@ NA = {
  "C02": "equality of results across optimisation levels is a value-level relation between executions of two emitted programs (DESIGN 4)",
  "C03": "the classic compiler is CLVM data interpreted at compile time; its meaning lies outside any analysis of the Rust program (DESIGN 4)",
  "C04": "soundness of CLVM rewrite rules for any args is an algebraic identity over evaluator semantics, not a shape-of-code fact (DESIGN 4)",
- "C06": "agreement of two evaluators on every program is value-level; its only structural part (opcode constants of the step machine) is decided under C20 (DESIGN 4)",
  "C09": "printer/reader inverse over all byte strings is about the values of two character-class automata (DESIGN 4)",
  "C12": "faithfulness of each trace row is a per-step semantic statement about executions (DESIGN 4)",
  "C15": "source locations are column arithmetic per input byte; numeric, per input (DESIGN 4)",
@@ -20,6 +19,20 @@ NA = {
 PENDING = "static rule designed in DESIGN section 3; check not yet registered (under construction)"
 
 CHECKS = {
+ "C06": {
+  "text": "PARTIAL. Sibling comparison of the stepping evaluator's own operator handling with the consensus evaluator, both "
+          "recovered from MIR on the current sources: the argument counts it enforces for i/c/a/f/r equal the const-generic N of "
+          "get_args::<N> in the consensus implementation reached through ChiaDialect::op (and run_program's apply); every "
+          "environment lookup flattens the path to a non-negative number, answers the all-zero path before the halving descent "
+          "(found F18, fixed) and takes first on an even / rest on an odd step; opcode 1 returns its tail unevaluated; apply_op "
+          "quotes the evaluated arguments by position ((nil . args), references 5, 2s+1, head unchanged) and returns the "
+          "Reduction's value. Holds for every program at once; tests run fixed programs.",
+  "note": "NOT decided (value-level): agreement of results and failures in general — truthiness, big-integer conversions, "
+          "evaluation order, results of delegated operators, cost and step limits. Breaking a decided clause breaks the property; "
+          "satisfying them does not establish it. Opcode constants of the step machine are decided under C20 (R20.STEP).",
+  "technique": "MIR constant/edge recovery + sibling comparison against clvmr's MIR facts + must-pass-through",
+  "design": "3.11",
+ },
  "C07": {
   "text": "PARTIAL. Decides three structural clauses that are necessary for the hash/equality part of the property, on the "
           "current sources: (frame) the three tree-hash implementations in the crate (rich form, CLVM form, symbol/relabel "
